@@ -72,6 +72,8 @@ def run(ctx):
     r_unit = ctx.rule("C12.UNIT", "no arithmetic/comparison between codepoint and byte positions, no value of one unit passed or stored as the other, no absolute position added to an absolute position")
     unit_rule(ctx, r_unit, prog, UNIT_FILES, 400)
 
+    exact_rule(ctx, syn)
+
     # ---------------- ERR
     r_err = ctx.rule("C12.ERR", "utf8byte / utf8byte_to_charpos return Ok only under an exact match on the cursor and otherwise fall through to Err; nothing in them can panic")
     for name in ("utf8byte", "utf8byte_to_charpos"):
@@ -245,3 +247,103 @@ def run(ctx):
             r_mile.hit("raw:" + acc)
             ctx.report(r_mile, "raw-public:" + acc, "public accessor %s exposes milestone entries (%s): its answer depends on milestone_interval" % (acc, why), prog.bodies[acc].file, prog.bodies[acc].line)
     r_mile.notes.append("consumers of raw accessors: %d" % ncons)
+
+
+# ---------------------------------------------------------------------- EXACT
+def exact_rule(ctx, syn):
+    """utf8byte / utf8byte_to_charpos of TextResource, evaluated from their syntax trees on small texts with
+    multi-byte characters and *every* content of the position index (any subset of the positions, with or
+    without the end), return exactly the byte offset / codepoint position, and an error beyond the text"""
+    import itertools
+    from formula import Evaluator, Unknown, Panic, StructVal, EnumVal, some, is_some, ok
+    r = ctx.rule("C12.EXACT", "utf8byte(c) is the byte offset of codepoint c and utf8byte_to_charpos is its inverse, for every content of the position index (milestones or not, end entry or not)")
+    f_b = syn.fn("utf8byte", self_ty="TextResource", trait="Text<'store,'store>")
+    f_c = syn.fn("utf8byte_to_charpos", self_ty="TextResource", trait="Text<'store,'store>")
+    ctx.functions_analysed.update([f_b.qual, f_c.qual])
+    hooks = {}
+
+    def h_get(ev, recv, args, node, env):
+        if isinstance(recv, dict) and not isinstance(recv, StructVal):
+            return some(recv[args[0]]) if args[0] in recv else None
+        return NotImplemented
+    hooks["get"] = h_get
+
+    def h_range(ev, recv, args, node, env):
+        if isinstance(recv, dict) and not isinstance(recv, StructVal) and len(args) == 1 and isinstance(args[0], tuple) and len(args[0]) == 2:
+            lo, hi = args[0]
+            def inside(k):
+                okl = (k >= lo.args[0]) if lo.name == "Included" else (k > lo.args[0]) if lo.name == "Excluded" else True
+                okh = (k <= hi.args[0]) if hi.name == "Included" else (k < hi.args[0]) if hi.name == "Excluded" else True
+                return okl and okh
+            return [(k, recv[k]) for k in sorted(recv) if inside(k)]
+        return NotImplemented
+    hooks["range"] = h_range
+    hooks["call:Included"] = lambda ev, recv, args, node, env: EnumVal("Included", args)
+    hooks["call:Excluded"] = lambda ev, recv, args, node, env: EnumVal("Excluded", args)
+    hooks["next_back"] = lambda ev, recv, args, node, env: (some(recv[-1]) if recv else None) if isinstance(recv, list) else NotImplemented
+    hooks["next"] = lambda ev, recv, args, node, env: (some(recv[0]) if recv else None) if isinstance(recv, list) else NotImplemented
+    hooks["text"] = lambda ev, recv, args, node, env: recv["text"] if isinstance(recv, StructVal) and "text" in recv else NotImplemented
+
+    def char_indices(ev, recv, args, node, env):
+        if isinstance(recv, str):
+            out = []
+            b = 0
+            for ch in recv:
+                out.append((b, ch))
+                b += len(ch.encode("utf8"))
+            return out
+        return NotImplemented
+    hooks["char_indices"] = char_indices
+    hooks["chars"] = lambda ev, recv, args, node, env: list(recv) if isinstance(recv, str) else NotImplemented
+    hooks["enumerate"] = lambda ev, recv, args, node, env: [(i, x) for i, x in enumerate(recv)] if isinstance(recv, list) else NotImplemented
+    hooks["len_utf8"] = lambda ev, recv, args, node, env: len(recv.encode("utf8")) if isinstance(recv, str) else NotImplemented
+    texts = ["", "a", "aé", "é€b", "😀a€", "ab€c"]
+    reported = set()
+    n = 0
+    for text in texts:
+        chars = list(text)
+        offs = [0]
+        for ch in chars:
+            offs.append(offs[-1] + len(ch.encode("utf8")))
+        L = len(chars)
+        for mask in range(1 << (L + 1)):
+            entries = [p_ for p_ in range(L + 1) if mask & (1 << p_)]
+            pidx = dict((p_, StructVal("PositionIndexItem", {"bytepos": offs[p_]})) for p_ in entries)
+            b2c = dict((offs[p_], p_) for p_ in entries)
+            slf = StructVal("TextResource", {"text": text, "textlen": L, "positionindex": (pidx,), "byte2charmap": b2c})
+            for cur in range(L + 3):
+                want = ok(offs[cur]) if cur <= L else "err"
+                n += 1
+                try:
+                    got = Evaluator(hooks=hooks).run_body(f_b.body, {"self": slf, "abscursor": cur})
+                except (Unknown, Panic) as e:
+                    got = "unevaluated/panic: %s" % e
+                if isinstance(got, tuple) and got and got[0] == "err":
+                    got = "err"
+                r.obligations += 1
+                if got == want:
+                    r.discharged += 1
+                else:
+                    key = "utf8byte:%s" % ("unevaluated" if isinstance(got, str) and got.startswith("uneval") else ("end" if cur == L else "inside" if cur < L else "beyond"))
+                    if key not in reported:
+                        reported.add(key)
+                        ctx.report(r, key, "TextResource::utf8byte(%d) on the text %r with position-index entries at %s answers %s; the byte offset of that codepoint is %s" % (cur, text, entries, got, want), f_b.file, f_b.line, {"text": text, "index": entries, "cursor": cur})
+            for bc in range(offs[-1] + 2):
+                want = ok(offs.index(bc)) if bc in offs else "err"
+                n += 1
+                try:
+                    got = Evaluator(hooks=hooks).run_body(f_c.body, {"self": slf, "bytecursor": bc})
+                except (Unknown, Panic) as e:
+                    got = "unevaluated/panic: %s" % e
+                if isinstance(got, tuple) and got and got[0] == "err":
+                    got = "err"
+                r.obligations += 1
+                if got == want:
+                    r.discharged += 1
+                else:
+                    key = "utf8byte_to_charpos:%s" % ("unevaluated" if isinstance(got, str) and got.startswith("uneval") else ("end" if bc == offs[-1] else "boundary" if bc in offs else "inside-char" if bc < offs[-1] else "beyond"))
+                    if key not in reported:
+                        reported.add(key)
+                        ctx.report(r, key, "TextResource::utf8byte_to_charpos(%d) on the text %r with index entries at %s answers %s; expected %s" % (bc, text, entries, got, want), f_c.file, f_c.line, {"text": text, "index": entries, "byte": bc})
+    r.hit("grid", sample={"texts": texts, "index_contents": "every subset of the positions 0..=len", "evaluations": n})
+    ctx.floor(r, n, 1078, "conversion evaluations")
